@@ -279,6 +279,9 @@ func runAgentClose(c *vlib.Ctx) error {
 	}
 	var specs []agentSpec
 	for _, b := range c.ReadBehaviours() {
+		if b["m"] == "dial" {
+			continue // behaviours of the AgentDial model, run below
+		}
 		var s agentSpec
 		vlib.Decode(b, &s)
 		specs = append(specs, s)
@@ -362,11 +365,22 @@ func runAgentClose(c *vlib.Ctx) error {
 		}
 	}
 	c.SetExtra("behaviours_from_model", len(specs))
+	// growth: dials that fail after at least one agent process was started - connect's
+	// "handshake failure closes the stream" is Stream.Close's guarantee at work
+	ndial := argInt(c, "dial", 8)
+	stubborn := func(s dScript) bool { return hasStep(s, func(st dStep) bool { return st.Ans == "stubborn" }) }
+	sel := pickDialScripts(c, 1+ndial/5, stubborn)
+	sel = append(sel, pickDialScripts(c, ndial, func(s dScript) bool { return !stubborn(s) })...)
+	runDialCases(c, sel)
 	return nil
 }
 
 func replayAgentClose(c *vlib.Ctx) error {
 	doc := c.LoadReplay()
+	if b, ok := doc["begin"].(map[string]any); ok && b["ev"] == "Dial" {
+		replayDial(c, doc["begin"])
+		return nil
+	}
 	var rec struct {
 		In acIn `json:"in"`
 	}
